@@ -26,8 +26,8 @@ TRUSTED = [
     "mixing --as-needed/--no-as-needed regions, weak/non-weak references from objects and archive members",
     "GNU ld 2.40 and ld.lld 14 as oracles where they agree",
 ]
-RULE = "random link inputs with 1-4 shared objects (as-needed or not), objects and archive members referencing them weakly / non-weakly; non-trivial = at least one as-needed library; distinct by request line"
-ASSUMPTIONS = ["each shared object appears once on the command line; sonames are distinct"]
+RULE = "random link inputs with 1-4 shared objects (as-needed or not), objects and archive members referencing them weakly / non-weakly; in a third of the inputs one shared object is named a second time under a random --as-needed state; non-trivial = at least one as-needed library; distinct by request line"
+ASSUMPTIONS = ["a shared object appears at most twice on the command line; sonames are distinct", "a twice-named library is modelled as one file at its first position that is as-needed only if both mentions are (GNU ld / lld behaviour)"]
 
 
 def gen(r):
@@ -44,7 +44,7 @@ def gen(r):
         if k == "ar":
             g += 1
             # --whole-archive regions stay open over the shared objects that follow (the flag only concerns archives)
-            f.update({"whole": r.chance(1, 3), "group": g, "thin": False})
+            f.update({"whole": r.chance(1, 3), "group": g, "thin": g % 2 == 0})
         files.append(f)
     nnames = r.range(1, 5)
     for n in range(nnames):
@@ -91,6 +91,16 @@ def run(ctx):
         except RuntimeError:
             ctx.count("gen", "build-failed")
             continue
+        # a shared object may be named a second time under the other flag: it is loaded once, at its first position, and is
+        # "linked without --as-needed" as soon as one of its mentions is (GNU ld and lld agree)
+        sos = [k for k, f in enumerate(files) if f["kind"] == "so"]
+        if sos and r.chance(1, 3):
+            k = r.choice(sos)
+            a = r.chance(1, 2)
+            line = line + ["--as-needed" if a else "--no-as-needed", os.path.join(d, f"libs{k}.so")]
+            ctx.count("second-mention", f"first={'as-needed' if files[k].get('as_needed') else 'no-as-needed'},second={'as-needed' if a else 'no-as-needed'}")
+            files = [dict(f) for f in files]
+            files[k]["as_needed"] = bool(files[k].get("as_needed")) and a
         out = os.path.join(d, "out.wild")
         rc, o, e = c02.run_linker("wild", d, line, True, out, threads=r.choice([1, 4]))
         if rc != 0:
